@@ -7,6 +7,7 @@ Next == Encode \/ \E ty \in TypeParams : Decode(ty)
 Spec == Init /\ [][Next]_hvars
 TypeIndependence == C20_TypeIndependent(Handles)
 ASSUME TypeIndependence
+ASSUME C20_OneDefinition(Handles)
 Emit ==
     /\ TLCGet("stats").generated > 0
     /\ ndJsonSerialize(IOEnv.VERIF_OUT, SetToSeq(Handles))
